@@ -109,6 +109,8 @@ func newCosmosAnteHandler(options HandlerOptions) sdk.AnteHandler {
 			// "exec on my behalf" must not be delegated: a grantee that is not bound to the ante handler
 			// (interchain account, governance) could run MsgExec{granter, [MsgEthereumTx]} with it
 			sdk.MsgTypeURL(&authz.MsgExec{}),
+			// ... and neither must "grant on my behalf": the grantee would issue itself the grants barred above
+			sdk.MsgTypeURL(&authz.MsgGrant{}),
 		),
 		ante.NewSetUpContextDecorator(),
 		ante.NewExtensionOptionsDecorator(options.ExtensionOptionChecker),
@@ -139,6 +141,8 @@ func newLegacyCosmosAnteHandlerEip712(options HandlerOptions) sdk.AnteHandler {
 			// "exec on my behalf" must not be delegated: a grantee that is not bound to the ante handler
 			// (interchain account, governance) could run MsgExec{granter, [MsgEthereumTx]} with it
 			sdk.MsgTypeURL(&authz.MsgExec{}),
+			// ... and neither must "grant on my behalf": the grantee would issue itself the grants barred above
+			sdk.MsgTypeURL(&authz.MsgGrant{}),
 		),
 		ante.NewSetUpContextDecorator(),
 		ante.NewValidateBasicDecorator(),
